@@ -20,7 +20,7 @@ CONSTANTS
   UseAct = TRUE
   MaxHist = 4
   MaxSuf = 3
-  Limit = 1000
+  Limit = 100
   FlushWorks = TRUE
 INVARIANTS FlushRestores SuffixEqual
 CHECK_DEADLOCK FALSE
